@@ -56,7 +56,8 @@ PROPS = {
         floor={'quick': 300, 'thorough': 1000},
     ),
     'C08': dict(
-        runs=[dict(src='c08_rdwr_model.c')],
+        runs=[dict(src='c08_rdwr_model.c'),
+              dict(src='c08_rdwr_model.c', variant='vg', tool='memcheck', args_quick=['--stride', '40'], args_thorough=['--stride', '160'])],
         level='exploration',
         rule=('case = a set of SFM_RDWR histories on one (container, sample-granular encoding, channels, route vio|path, start empty|5 frames): '
               'either ALL histories of depth d over the 44-op alphabet {W1,W3,R1,R3, seek x {SET,CUR,END} x {plain,|SFM_READ,|SFM_WRITE} x {0,-1,+2,F}, '
@@ -94,7 +95,8 @@ PROPS = {
         floor={'quick': 300, 'thorough': 1000},
     ),
     'C09': dict(
-        runs=[dict(src='c09_invalid_calls.c', ldflags='-Wl,--wrap=time,--wrap=gettimeofday')],
+        runs=[dict(src='c09_invalid_calls.c', ldflags='-Wl,--wrap=time,--wrap=gettimeofday'),
+              dict(src='c09_invalid_calls.c', ldflags='-Wl,--wrap=time,--wrap=gettimeofday', variant='vg', tool='memcheck', args_quick=['--stride', '24'], args_thorough=['--stride', '200'])],
         level='exploration',
         rule=('case = all call sequences of depth 3 (thorough: depth 4 on four formats) from a 41-call alphabet of valid and '
               'invalid calls (wrong mode, misaligned counts in all four sample types, negative/zero counts, bad whence, negative/out-of-range seek with qualifiers, unknown command, NULL data, bad string '
@@ -139,7 +141,8 @@ PROPS = {
         timeout={'quick': 3000, 'thorough': 20000},
     ),
     'C10': dict(
-        runs=[dict(src='c10_format_check.c')],
+        runs=[dict(src='c10_format_check.c'),
+              dict(src='c10_format_check.c', variant='vg', tool='memcheck', args_quick=['--stride', '16'], args_thorough=['--stride', '16'])],
         level='exploration',
         exhaustive=True,
         rule=('the complete grid of the property: every (major, subtype) pair of the library\'s own lists x endian {FILE,LITTLE,BIG,CPU} x channels '
@@ -164,7 +167,8 @@ PROPS = {
         floor={'quick': 5000, 'thorough': 20000},
     ),
     'C15': dict(
-        runs=[dict(src='c15_io_faults.c', ldflags='-Wl,--wrap=read,--wrap=write')],
+        runs=[dict(src='c15_io_faults.c', ldflags='-Wl,--wrap=read,--wrap=write'),
+              dict(src='c15_io_faults.c', ldflags='-Wl,--wrap=read,--wrap=write', variant='vg', tool='memcheck', args_quick=['--stride', '8'], args_thorough=['--stride', '16'])],
         level='fault_enumeration',
         exhaustive=True,
         rule=('case = (format, workload in {write-close, open-read-seek-close, rdwr}, caller sample type, fault kind in {0 bytes, half the bytes, seek fails, '
@@ -208,7 +212,8 @@ PROPS = {
         floor={'quick': 500, 'thorough': 2000},
     ),
     'C17': dict(
-        runs=[dict(src='c17_command_grid.c')],
+        runs=[dict(src='c17_command_grid.c'),
+              dict(src='c17_command_grid.c', variant='vg', tool='memcheck', args_quick=['--stride', '20'], args_thorough=['--stride', '40'])],
         level='exploration',
         exhaustive=True,
         rule=('grid enumerated completely: command id in {0x0FF0..0x1500, 0x2000..0x2200, 0x6000..0x6010, 0, 1, -1, 0x10000, 0x11003, 0x7fffffff} (covers every SFC_* of the '
